@@ -394,6 +394,16 @@ def as_z3_bool(x):
     raise TypeError("not a boolean: %r" % (x,))
 
 
+def float_to_fraction(x):
+    """a concrete Python float met inside symbolic arithmetic was produced by float arithmetic on concrete small counts
+    (e.g. tp / (tp + 0.5*fp + 0.5*fn)); floats are modelled as exact rationals, so recover the small rational it stands for"""
+    f = Fraction(x)
+    g = f.limit_denominator(1 << 20)
+    if g == f or abs(builtins.float(g) - x) <= 4e-16 * max(1.0, abs(x)):
+        return g
+    return f
+
+
 def zterm(x):
     """any scalar -> z3 term (Int, Real or Bool sort)"""
     if isinstance(x, Sym):
@@ -409,7 +419,7 @@ def zterm(x):
     if isinstance(x, builtins.float):
         if x != x or x in (builtins.float("inf"), -builtins.float("inf")):
             raise Unsupported("non-finite float in symbolic arithmetic")
-        return z3.RealVal(Fraction(x))
+        return z3.RealVal(float_to_fraction(x))
     tn = type(x).__module__
     if tn == "numpy":
         import numpy as _np
